@@ -158,6 +158,7 @@ class Sim:
         self.stall_p = stall_p          # probability that a worker step is followed by a stall
         self.stall_max = 12.0
         self.line_stall_p = 0.0         # chance that a line-level pre-emption also parks the thread for a while
+        self.queue_p = 0.0              # chance that a job waits in the executor's queue before it starts
         self.ioerr_hook = None          # (tag, detail) -> True: this durable operation fails with ENOSPC
         self.alloc_hook = None          # (tag, detail) -> True: this allocation fails (MemoryError)
         self.commit_batch = None        # the write batch whose commit is the current / latest durable operation
@@ -328,6 +329,14 @@ class Sim:
         w = Worker(self, self.wseq, func, args, fut)
         self.workers.append(w)
         self.log('W+', w.wid, w.tag)
+        if self.queue_p and self.preempt:
+            # a busy thread pool: the job waits in the executor's queue for a while before it starts (the only
+            # way a job without any storage call - a pure computation - can take time)
+            sb = self.stall_boost
+            if (not sb or len(sb) < 3 or sb[2] in w.origin) and self.ch.chance(self.queue_p):
+                w.blocked_until = self.now + self.ch.delay(0.001, self.stall_max)
+                self.stats['stall'] += 1
+                self.stats['queue_stall'] += 1
         return w
 
     def _bind(self, w):
